@@ -517,3 +517,78 @@ func c03NoArgumentArrayMutation(c *Ctx, r *Report) {
 	r.OK("R03.7", "arrays taken from arguments in package bifs", "", fmt.Sprintf("%d arrays taken from parameters, %d sort calls and slot stores examined", nsrc, n))
 	r.Floor("R03.7", "arrays taken from parameters", nsrc, 10)
 }
+
+// c04SubsliceIndex (R04.14): the index of a range over a sub-slice is not an
+// index into the whole slice.
+func c04SubsliceIndex(c *Ctx, r *Report) {
+	r.Rule("R04.14", "an index into a sub-slice stays with the sub-slice: where a loop ranges over s[a:] (a lower bound that is not the constant 0) and its index variable i is used to index s itself — the same slice value, or a re-load of the same variable — the element addressed is s[i], not s[a+i]: freshly appended records overwrite the ones emitted earlier in the same batch, and how many there are depends on the batch size. Expected count on a correct tree: zero; the thorough tier's variant C04-6 is the positive example")
+	n := 0
+	for _, fn := range c.ModuleFunctions() {
+		if fn.Blocks == nil {
+			continue
+		}
+		pk := ""
+		if fn.Pkg != nil {
+			pk = fn.Pkg.Pkg.Path()
+		}
+		if subEntrypointPkg(pk) {
+			continue
+		}
+		idxN := 0
+		for _, b := range fn.Blocks {
+			for _, in := range b.Instrs {
+				sub, ok := in.(*ssa.Slice)
+				if !ok || sub.Low == nil {
+					continue
+				}
+				if k, isK := sub.Low.(*ssa.Const); isK && k.Value != nil && k.Value.Kind() == constant.Int {
+					if v, ok := constant.Int64Val(k.Value); ok && v == 0 {
+						continue
+					}
+				}
+				if _, isSlice := sub.Type().Underlying().(*types.Slice); !isSlice {
+					continue
+				}
+				// a range loop over sub: its index value i satisfies i < len(sub) and indexes sub
+				var idxs []ssa.Value
+				for _, ref := range *sub.Referrers() {
+					ia, ok := ref.(*ssa.IndexAddr)
+					if ok && ia.X == ssa.Value(sub) {
+						// is the index compared with len(sub)?
+						if ia.Index.Referrers() != nil {
+							for _, r2 := range *ia.Index.Referrers() {
+								if cmp, ok := r2.(*ssa.BinOp); ok && cmp.Op == token.LSS && cmp.X == ia.Index {
+									if call, ok := cmp.Y.(*ssa.Call); ok {
+										if bi, ok := call.Call.Value.(*ssa.Builtin); ok && bi.Name() == "len" && call.Call.Args[0] == ssa.Value(sub) {
+											idxs = append(idxs, ia.Index)
+										}
+									}
+								}
+							}
+						}
+					}
+				}
+				if len(idxs) == 0 {
+					continue
+				}
+				n++
+				// the same index applied to the whole slice
+				for _, idx := range idxs {
+					for _, r2 := range *idx.Referrers() {
+						ia, ok := r2.(*ssa.IndexAddr)
+						if !ok || ia.Index != idx || ia.X == ssa.Value(sub) {
+							continue
+						}
+						if ia.X == sub.X || sameStr(ia.X, sub.X) {
+							idxN++
+							r.Fail("R04.14", fmt.Sprintf("%s: sub-slice index on the whole slice #%d", SSAName(fn), idxN), c.Rel(ia.Pos()),
+								fmt.Sprintf("%s ranges over a sub-slice s[a:] and uses the loop index to address s itself at %s: that is element i, not a+i — the loop overwrites the first elements of s instead of the ones it reads", SSAName(fn), c.Rel(ia.Pos())))
+						}
+					}
+				}
+			}
+		}
+	}
+	r.OK("R04.14", "range loops over sub-slices", "", fmt.Sprintf("%d loops over s[a:] examined", n))
+	r.Floor("R04.14", "range loops over sub-slices with a non-zero lower bound", n, 1)
+}
